@@ -34,7 +34,7 @@ use full_moon::ast::{
     punctuated::Pair,
 };
 use full_moon::ast::{punctuated::Punctuated, span::ContainedSpan};
-use full_moon::tokenizer::{Token, TokenReference, TokenType};
+use full_moon::tokenizer::{StringLiteralQuoteType, Token, TokenReference, TokenType};
 use std::boxed::Box;
 
 pub fn format_compound_op(ctx: &Context, compound_op: &CompoundOp, shape: Shape) -> CompoundOp {
@@ -1050,16 +1050,40 @@ pub fn format_type_field_key(
         TypeFieldKey::Name(token) => TypeFieldKey::Name(
             format_token_reference(ctx, token, shape).update_leading_trivia(leading_trivia),
         ),
-        TypeFieldKey::IndexSignature { brackets, inner } => TypeFieldKey::IndexSignature {
-            brackets: format_contained_span(ctx, brackets, shape)
-                .update_leading_trivia(leading_trivia),
-            inner: format_type_info_internal(
+        TypeFieldKey::IndexSignature { brackets, inner } => {
+            // `[ [[string]] ]` is invalid syntax if we remove the whitespace (`[[[` starts a long string)
+            let space_brackets = matches!(
+                inner,
+                TypeInfo::String(token)
+                    if matches!(
+                        token.token_type(),
+                        TokenType::StringLiteral {
+                            quote_type: StringLiteralQuoteType::Brackets,
+                            ..
+                        }
+                    )
+            );
+
+            let inner = format_type_info_internal(
                 ctx,
                 inner,
                 TypeInfoContext::new().mark_within_table_indexer(),
-                shape + 1,
-            ), // 1 = "["
-        },
+                shape + if space_brackets { 2 } else { 1 }, // 1 = "[", 2 = "[ "
+            );
+
+            TypeFieldKey::IndexSignature {
+                brackets: format_contained_span(ctx, brackets, shape)
+                    .update_leading_trivia(leading_trivia),
+                inner: if space_brackets {
+                    inner.update_trivia(
+                        FormatTriviaType::Append(vec![Token::new(TokenType::spaces(1))]),
+                        FormatTriviaType::Append(vec![Token::new(TokenType::spaces(1))]),
+                    )
+                } else {
+                    inner
+                },
+            }
+        }
         other => panic!("unknown node {:?}", other),
     }
 }
